@@ -24,10 +24,21 @@
   * `AP.isTimeIncluded / includesMoy`
   * `AP.doysInt / monthsInt / monthsPerHour`
   * `AP.inWindow / AP.Pred`   independent specification of membership
-  * key theorems (Props/C04.lean): `C04_mem_moys : ap.WF → (m ∈ ap.moys ↔ ap.Pred m)`,
-    `C04_moys_sorted` (non-reversed: strictly increasing), `C04_moys_segments` (reversed: two
-    increasing runs, second run earlier in the year), `C04_moys_nodup`, `C04_moys_chrono`,
-    `C04_len`, `C04_mk_wf`.
+  * `AP.chronoKey`            position of a minute counted cyclically from the start moment
+  * key theorems (Props/C04.lean, all under `ap.WF`):
+      `C04_mem_moys      : m ∈ ap.moys ↔ ap.Pred m`
+      `C04_moys_sorted   : ap.isReversed = false → ap.moys.Pairwise (· < ·)`
+      `C04_moys_segments : ap.isReversed = true → ∃ l₁ l₂, ap.moys = l₁ ++ l₂ ∧ both increasing ∧
+                           l₁ ≥ stMoy ∧ l₂ < endMoy + 60 ≤ stMoy`
+      `C04_moys_chrono   : (ap.moys.map ap.chronoKey).Pairwise (· < ·)`
+      `C04_moys_nodup    : ap.moys.Nodup`
+      `C04_len           : ap.len = ap.moys.length`
+      `C04_included`, `C04_doys`, `C04_months`, `C04_months_per_hour_complete/_sound`,
+      `C04_mk_wf` (constructor ok → WF and field provenance), `C04_mk_accepts`, `C04_dict_roundtrip`.
+    Reusable lemmas (Proofs/C04Lemmas.lean, Proofs/C04Listings.lean): `AP.mem_moys`, `AP.mem_segment`,
+    `AP.moment_facts` (stMoy/endMoy are multiples of 60, inside the year, `isReversed = false ↔ stMoy ≤ endMoy`),
+    `AP.doy_facts`, `AP.ts_cases` / `AP.ts_facts` (case split over the 12 timesteps), `AP.possibleMod_iff`,
+    `AP.mem_doysInt`, `AP.mem_monthsInt`, `AP.mem_monthsPerHour`, `AP.mkOpt_wf`, `AP.mk_of_wf`.
 -/
 import Ladybug.Py
 import Ladybug.Model.Cal
